@@ -458,8 +458,56 @@ def m_np_array(eng, st, args, kwargs, node):
     v = args[0]
     if isinstance(v, (VInt, VFloat, VBool)):
         return v
+    if isinstance(v, VRef) and isinstance(st.heap[v.addr], H2D):
+        return v                      # np.array of an array: a copy with the same contents (the verified code only reads it)
     o = seq_of(eng, st, v, node)
+    e0 = o.get(z3.IntVal(0))
+    if isinstance(e0, VRef) and isinstance(st.heap[e0.addr], HSeq) and not st.heap[e0.addr].numpy:
+        # list of Python lists -> 2-D array (all rows must have the same length, else numpy raises / builds an object array)
+        g = o.get
+        cols = z3.If(o.len > 0, st.heap[e0.addr].len, 0)
+        k = z3.Int(fresh_name("k!rows"))
+        s2 = st.fork()
+        s2.pc = list(st.pc) + [0 <= k, k < o.len]
+        eng.oblige(s2, "np.array(list of lists): all rows have the same length", st.heap[g(k).addr].len == st.heap[e0.addr].len, "safety", node)
+        return st.alloc(H2D(o.len, cols, lambda r, c: st.heap[g(r).addr].get(c), etype=st.heap[e0.addr].etype))
     return st.alloc(HSeq(o.len, o.get, numpy=True, etype=o.etype))
+
+
+def m_np_empty(eng, st, args, kwargs, node):
+    """np.empty(n, dtype='U<k>'): n strings of at most k characters (longer strings are truncated silently on assignment: every
+    store into such an array carries the obligation len(value) <= k)."""
+    n = eng.as_int(args[0])
+    dt = kwargs.get("dtype")
+    eng.oblige(st, "np.empty size is non-negative", n >= 0, "safety", node)
+    if isinstance(dt, VStr) and dt.s.startswith("U") and dt.s[1:].isdigit():
+        cap = z3.IntVal(int(dt.s[1:]))
+    elif isinstance(dt, (VStr, VLabel)):
+        cap = z3.Int(fresh_name("ustr.width"))        # a width computed at run time: nothing is known about it
+    else:
+        raise Unsupported("np.empty dtype %r (line %d)" % (dt, node.lineno))
+    junk = z3.Function(fresh_name("empty"), z3.IntSort(), Label)
+    return st.alloc(HSeq(n, lambda k: VLabel(junk(k)), numpy=True, etype=T.label, note=("ustr", cap)))
+
+
+def ustr_check(eng, st, o, values, node):
+    """stores into a fixed-width string array: the stored strings must fit"""
+    if not (o.note and o.note[0] == "ustr"):
+        return
+    cap = o.note[1]
+    for v, cond in values:
+        if isinstance(v, VNone):
+            t = eng.label_of("None")
+        elif isinstance(v, VStr):
+            t = eng.label_of(v.s)
+        elif isinstance(v, VLabel):
+            t = v.t
+        else:
+            raise Unsupported("store of %r into a string array" % (v,))
+        str_len(eng, t)
+        s2 = st.fork()
+        s2.pc = list(st.pc) + list(cond)
+        eng.oblige(s2, "string stored into a fixed-width array fits its width (no silent truncation)", STRLEN(t) <= cap, "safety", node)
 
 
 def m_np_atleast_1d(eng, st, args, kwargs, node):
@@ -904,6 +952,16 @@ def m_lstrip(eng, st, recv, args, kwargs, node):
     raise Unsupported("lstrip on %r" % (recv,))
 
 
+def m_replace(eng, st, recv, args, kwargs, node):
+    """s.replace(a, b) on an abstract string: an abstract string determined by the three arguments"""
+    if isinstance(recv, VStr) and all(isinstance(a, VStr) for a in args):
+        return VStr(recv.s.replace(args[0].s, args[1].s))
+    if isinstance(recv, (VLabel, VStr)) and len(args) == 2 and all(isinstance(a, VStr) for a in args):
+        f = eng.label_fn("replace:%r:%r" % (args[0].s, args[1].s), Label)
+        return VLabel(f(recv.t if isinstance(recv, VLabel) else eng.label_of(recv.s)))
+    raise Unsupported("replace on %r" % (recv,))
+
+
 def m_isdigit(eng, st, recv, args, kwargs, node):
     if isinstance(recv, VConc) and recv.name == "lstrip-":
         return VBool(ISINT(recv.obj[0].t))
@@ -939,9 +997,20 @@ def m_store_mask(eng, st, base, idx, v, node):
     e0 = mo.get(z3.Int("k!probe"))
     if not isinstance(e0, VBool):
         raise Unsupported("store with an index array (line %d)" % node.lineno)
-    if isinstance(v, VRef):
-        raise Unsupported("a[mask] = array (line %d)" % node.lineno)
     eng.oblige(st, "mask has the length of the array", mo.len == o.len, "safety", node)
+    if isinstance(v, VRef):
+        # a[mask] = values: the j-th true position receives values[j]; numpy needs exactly as many values as true entries
+        vo = seq_of(eng, st, v, node)
+        mg0 = mo.get
+        ma = mask_array(eng, st, lambda k: mg0(k).t)
+        n = len_alias(eng, o.len)
+        filter_axioms(eng, ma, n)
+        eng.oblige(st, "a[mask] = values: one value per true entry of the mask", vo.len == CNT(ma, n), "safety", node)
+        g, vg = o.get, vo.get
+        kq = z3.Int(fresh_name("k!sm"))
+        ustr_check(eng, st, o, [(vg(kq), [0 <= kq, kq < vo.len])], node)
+        st.heap[base.addr] = HSeq(o.len, lambda k: ite(z3.Select(ma, k), vg(RNK(ma, n, k)), g(k)), numpy=True, etype=o.etype, note=o.note)
+        return None
     g, mg = o.get, mo.get
     probe = g(z3.Int("k!probe"))
     if isinstance(probe, VFloat):
@@ -1203,7 +1272,10 @@ def m_store_slice(eng, st, base, sl, v, node):
                                   numpy=o.numpy, etype=o.etype)
     else:
         vv = as_float(v) if isinstance(g(z3.Int("k!probe")), VFloat) else v
-        st.heap[base.addr] = HSeq(o.len, lambda k: ite(z3.And(k >= lo, k < hi), vv, g(k)), numpy=o.numpy, etype=o.etype)
+        if o.note and o.note[0] == "ustr":
+            ustr_check(eng, st, o, [(v, [])], node)
+            vv = VLabel(eng.label_of("None")) if isinstance(v, VNone) else (VLabel(eng.label_of(v.s)) if isinstance(v, VStr) else v)
+        st.heap[base.addr] = HSeq(o.len, lambda k: ite(z3.And(k >= lo, k < hi), vv, g(k)), numpy=o.numpy, etype=o.etype, note=o.note if (o.note and o.note[0] == "ustr") else None)
     return None
 
 
@@ -1259,6 +1331,7 @@ def install(eng):
     M["subscript2d"] = m_subscript2d
     M["store2d"] = m_store2d
     M["np.ones"] = m_np_ones
+    M["np.empty"] = m_np_empty
     M["np.copy"] = m_np_copy
     M["np.pad"] = m_np_pad
     M["np.log"] = unary_float(flog)
@@ -1287,7 +1360,7 @@ def install(eng):
     M["pprint.PrettyPrinter"] = m_prettyprinter
     eng.methods["pprint"] = m_pprint
     eng.methods.update({"append": m_append, "copy": m_copy, "cumsum": m_cumsum, "astype": m_astype,
-                        "keys": m_dict_keys, "readlines": m_readlines, "lstrip": m_lstrip, "isdigit": m_isdigit})
+                        "keys": m_dict_keys, "readlines": m_readlines, "lstrip": m_lstrip, "isdigit": m_isdigit, "replace": m_replace})
     eng.module_consts.update({
         "np.nan": VFloat(0, nan=True), "np.inf": VFloat(0, inf=True, pos=True),
         "np.pi": VFloat(z3.Real("pi")), "np.intp": VConc("np.intp"),
